@@ -71,6 +71,8 @@ private:
   // to save on the otherwise constant memory reallocation.
   // subparser_ is reused solely to get better reuse out ins_/outs_/validation_.
   std::unique_ptr<ManifestParser> subparser_;
+  /// Nesting level of this parser in a chain of include/subninja statements.
+  int include_depth_ = 0;
   std::vector<EvalString> ins_, outs_, validations_;
 };
 
